@@ -32,6 +32,15 @@
 //!                   since before the send and was still waiting in recv() 1 s after the
 //!                   acknowledgement had come back (nothing but the owner may take it out of RX).
 //! Duplicates delivered twice to an application are counted, not judged (C09 owns them).
+//!
+//! Family "twins" (`c10_twins`, ~15 % of the scenarios, on top of an ordinary scenario): two or three
+//! distinct peers - unsecured sessions from different source addresses with different ephemeral node ids
+//! (all with local session id 0), an unsecured and a secure session, two secure sessions - open an
+//! exchange with the SAME exchange id at one node (controls: different ids); the handlers wait in recv
+//! for the follow-ups, which the peers send in a chosen order / timing (the other peer's follow-up first,
+//! one owner busy or accepting late, piggy-backed / standalone / no acks). R1 also compares the PEER: the
+//! payload's sender (peer address + ephemeral node id, as a peer code in the tag) must be the peer of the
+//! handle's session (read from the session's peer address / peer node id).
 
 use std::collections::{BTreeMap, BTreeSet};
 
@@ -41,6 +50,7 @@ use crate::report::{Ctx, Report};
 use crate::sim::exec::RunStatus;
 use crate::sim::rng::{subseed, Fnv, Rng};
 
+use super::c10_twins::*;
 use super::c10_world::*;
 
 // ---------------------------------------------------------------------------------------------
@@ -241,7 +251,7 @@ pub fn gen_params(rng: &mut Rng, idx: u64) -> Params {
     }
     let net = *rng.pick(&[(0u32, 0u32, 0u32, 0u64), (0, 0, 0, 0), (5, 5, 10, 50), (15, 10, 20, 200), (30, 10, 20, 400), (0, 20, 30, 800)]);
     let expire = if rng.chance(1, 4) { Some((rng.below(4000) as u32, rng.below(2) as u8, *rng.pick(&[3u8, 3, 3, 0, 1]))) } else { None };
-    Params {
+    let mut p = Params {
         seed,
         s1_pase: rng.bool(),
         sh_pase: rng.bool(),
@@ -255,7 +265,25 @@ pub fn gen_params(rng: &mut Rng, idx: u64) -> Params {
         fill: rng.chance(1, 4),
         shuffle: !rng.chance(1, 8),
         slots: 16,
+        twins: None,
+    };
+    // ---- family "twins" (drawn last: every other parameter of a scenario is what it was before
+    // this family existed)
+    if rng.chance(3, 20) {
+        let tw = gen_twins(rng, !SMALL_TABLES);
+        let n = tw.node as usize;
+        if rng.chance(2, 3) {
+            // the handlers of the target node are not cancelled: they get to wait for the follow-ups
+            for c in p.hcancel[n].iter_mut() {
+                *c = None;
+            }
+        }
+        if rng.chance(1, 2) {
+            p.profile[n].clear();
+        }
+        p.twins = Some(tw);
     }
+    p
 }
 
 fn params_json(p: &Params) -> Value {
@@ -269,6 +297,7 @@ fn params_json(p: &Params) -> Value {
         "net": format!("{:?}", p.net),
         "expire": format!("{:?}", p.expire),
         "group": p.group, "fill": p.fill, "shuffle": p.shuffle, "s1_pase": p.s1_pase, "sh_pase": p.sh_pase,
+        "twins": p.twins.as_ref().map(|t| t.describe()),
         "gen": "see gen_params; replay by (shard_seed, index)",
     })
 }
@@ -282,6 +311,7 @@ fn sess_class(tag: u8) -> &'static str {
         0 | 1 => "disturbed-session",
         S_PROBE => "probe-session",
         S_HOSTILE => "hostile-peer-session",
+        S_HOSTILE2 => "second-hostile-peer-session",
         S_GROUP => "group-session",
         S_UNSEC => "unsecured-session",
         _ => "other-session",
@@ -307,6 +337,8 @@ struct InjRec {
     op: OpClass,
     ack: bool,
     idc: IdClass,
+    /// a message of a twin peer (takes part in R2's bookkeeping, not in the injection counters)
+    twin: bool,
 }
 
 pub struct Verdict {
@@ -442,7 +474,24 @@ pub fn judge(rep: &mut Report, p: &Params, o: &Outcome, replay: Value) -> Verdic
                     op: *op,
                     ack: ack.is_some(),
                     idc: *idc,
+                    twin: false,
                 });
+            }
+            EvKind::Twin { sess, exch_id, op, r, ack, skipped: None, .. } => {
+                if let Some(tw) = &p.twins {
+                    injs.push(InjRec {
+                        t: e.t,
+                        node: tw.node,
+                        sess: *sess,
+                        exch_id: *exch_id,
+                        i: true,
+                        r: *r,
+                        op: *op,
+                        ack: ack.is_some(),
+                        idc: IdClass::Fresh,
+                        twin: true,
+                    });
+                }
             }
             EvKind::Expire { done, sess, .. } => {
                 if *done {
@@ -467,7 +516,7 @@ pub fn judge(rep: &mut Report, p: &Params, o: &Outcome, replay: Value) -> Verdic
             continue;
         };
         delivery_hash.add(&[e.node, t.src, t.sess, t.app, t.seq as u8, t.dir]);
-        let hostile = t.src == 2;
+        let hostile = t.src >= 2;
         if !recv_seen.insert((*hid, t.src, t.app, t.seq, t.dir)) {
             rep.count("duplicate-surfaced-on-same-handle(not judged, see C09)");
         }
@@ -492,10 +541,46 @@ pub fn judge(rep: &mut Report, p: &Params, o: &Outcome, replay: Value) -> Verdic
         if t.i == h.initiator {
             bad.push(("role", format!("message with I flag {} surfaced on a handle whose role is {}", t.i as u8, if h.initiator { "initiator" } else { "responder" })));
         }
+        // the peer: who sent the payload (for H impersonating A / B on a disturbed session: whom it
+        // claimed to be) against the peer of the handle's session
+        let claimed = if t.src == P_H && t.sess <= 1 { 1 - t.dst.min(1) } else { t.src };
+        if h.peer == P_UNKNOWN {
+            rep.count("misroute-peer-unchecked:peer-of-the-handle's-session-unknown(group)");
+        } else {
+            rep.count("misroute_peer_checks");
+            if h.sess == S_UNSEC {
+                rep.count("misroute_peer_checks_unsecured");
+            }
+            if claimed != h.peer {
+                bad.push((
+                    "peer",
+                    format!(
+                        "sent by {} (peer code {:#x}) on its own session, surfaced on an exchange of the session with {} (peer code {:#x}; {}, local session id {:#06x})",
+                        peer_name(claimed),
+                        claimed,
+                        peer_name(h.peer),
+                        h.peer,
+                        sess_class(h.sess),
+                        h.local_sid
+                    ),
+                ));
+            }
+        }
         for (field, what) in bad {
             rep.violation(
                 "R1-only-its-own-exchange",
-                &format!("C10/misroute/{}/{}/{}", field, if hostile { "hostile-peer-message" } else { "node-message" }, sess_class(h.sess)),
+                &format!(
+                    "C10/misroute/{}/{}/{}",
+                    field,
+                    if t.src >= P_TWIN0 {
+                        "unsecured-peer-message"
+                    } else if hostile {
+                        "hostile-peer-message"
+                    } else {
+                        "node-message"
+                    },
+                    sess_class(h.sess)
+                ),
                 format!(
                     "a payload surfaced on an exchange that is not its own: {}; payload tag {:?}; handle {:?} (proto {:#x} opcode {:#x}) at t={} ms; params {}",
                     what,
@@ -509,6 +594,13 @@ pub fn judge(rep: &mut Report, p: &Params, o: &Outcome, replay: Value) -> Verdic
                 replay.clone(),
             );
         }
+    }
+
+    // ---- family "twins": coverage
+    if let Some(h) = judge_twins(rep, p, o, &handles) {
+        rep.distinct.insert(h);
+        shape.add_u64(h);
+        v.disturbed = true;
     }
 
     // ---- R8: a message that was acknowledged while the owner of its exchange was waiting for it
@@ -632,6 +724,22 @@ pub fn judge(rep: &mut Report, p: &Params, o: &Outcome, replay: Value) -> Verdic
     let mut by_key: BTreeMap<(u8, ExKey), Vec<&InjRec>> = BTreeMap::new();
     for j in &injs {
         v.disturbed = true;
+        if j.twin {
+            by_key
+                .entry((
+                    j.node,
+                    ExKey {
+                        sess: j.sess,
+                        local_sid: if j.sess <= 3 { SIDS[j.node as usize][j.sess as usize] } else { 0 },
+                        exch_id: j.exch_id,
+                        initiator: false,
+                        sess_uid: 0,
+                    },
+                ))
+                .or_default()
+                .push(j);
+            continue;
+        }
         let local_sid = match j.sess {
             0..=3 => SIDS[j.node as usize][j.sess as usize],
             _ => 0,
@@ -645,6 +753,7 @@ pub fn judge(rep: &mut Report, p: &Params, o: &Outcome, replay: Value) -> Verdic
                     local_sid,
                     exch_id: j.exch_id,
                     initiator: false,
+                    sess_uid: 0,
                 },
             ))
             .or_default()
@@ -727,7 +836,7 @@ pub fn judge(rep: &mut Report, p: &Params, o: &Outcome, replay: Value) -> Verdic
             }
             if !k.initiator && iv.accept_pending_seen {
                 rep.count("accept_deadline_checks");
-                let pending_ms = (iv.ap_last - iv.first) / 1000;
+                let pending_ms = iv.ap_longest.1 / 1000;
                 // exchanges that are accept-pending to the very end are R5's
                 let to_the_end = still_open.contains(&k) && !iv.owned_seen && !iv.dropped_seen;
                 if pending_ms > ACCEPT_DEADLINE_BOUND_MS && !to_the_end {
@@ -738,8 +847,8 @@ pub fn judge(rep: &mut Report, p: &Params, o: &Outcome, replay: Value) -> Verdic
                             "node {}: exchange {:?} stayed accept-pending (its opening message in the RX slot, nobody accepting it) from t={} ms to t={} ms = {} ms; an unclaimed message must be discarded at the accept deadline (1000 ms in rs-matter; bound used {} ms); afterwards owned: {}, dropped: {}; params {}",
                             n,
                             k,
-                            (iv.first - o.t0) / 1000,
-                            (iv.ap_last - o.t0) / 1000,
+                            (iv.ap_longest.0 - o.t0) / 1000,
+                            (iv.ap_longest.0 + iv.ap_longest.1 - o.t0) / 1000,
                             pending_ms,
                             ACCEPT_DEADLINE_BOUND_MS,
                             iv.owned_seen,
@@ -940,7 +1049,9 @@ pub fn run(ctx: &Ctx) -> Report {
          crafted messages over {exchange id class} x {I, R, A flags} x {opcode} x {session live / expired}. A scenario is non-trivial if it \
          contains at least one disturbance. distinct = hashes of the scenario shape (clients with their cancellation points, acceptor profiles, \
          handler cancellation plan, network policy, the order in which tagged payloads surfaced) plus one hash per injected combination \
-         (session kind, id class, opcode, flags, expired); interleavings = executor schedule hashes.",
+         (session kind, id class, opcode, flags, expired) plus, for a twins scenario, one hash of (session kinds of the peers, exchange-id \
+         pattern, opening opcodes / handler modes, the follow-up sequence with ack / R / opcode / handler mode, and the order in which the twin \
+         payloads surfaced on which peer's handle); interleavings = executor schedule hashes.",
     );
     crate::util::quiet_panics();
     crate::util::init_log_from_env();
@@ -949,6 +1060,7 @@ pub fn run(ctx: &Ctx) -> Report {
     rep.assumptions.push("a session is marked expired through Sessions::remove_for_fabric(unused fabric index, Some(session)) - the call RemoveFabric makes for the session its command arrived on".into());
     rep.assumptions.push("datagrams of the probe session are never dropped by the network adversary (duplicated / delayed only), no handler or client of it is cancelled, H never addresses it".into());
     rep.assumptions.push("probe bound 30 s virtual = 2 x (accept timeout 1 s + sweeps + one MRP ladder of 5 transmissions in each direction); the probe starts once all harness handlers are idle (at most 60 s after the faults stop)".into());
+    rep.assumptions.push("a handle's peer is read from its session's peer address (unsecured twin peers: peer node id) in the verif snapshot; group sessions have no single peer: the peer comparison of R1 is skipped for them".into());
     rep.assumptions.push("status reports with the I flag are not judged for exchange creation (CloseSession is legitimately sent that way); unsecured initiator data messages are not judged either".into());
 
     if let Some(r) = &ctx.replay {
@@ -997,8 +1109,34 @@ pub fn run(ctx: &Ctx) -> Report {
         ("accept_deadline_checks", 2500),
         ("acked_messages_surfaced_on_owner", 4000),
         ("wire_quiescence_checks", 1000),
+        // family "twins"
+        ("misroute_peer_checks", 8000),
+        ("misroute_peer_checks_unsecured", 400),
+        ("twin_scenarios", 120),
+        ("twin_exchanges_accepted", 300),
+        ("twin_same_id_pairs", 120),
+        ("twin_same_id_pairs_unsecured", 80),
+        ("twin-same-id-pair:unsecured+secure", 15),
+        ("twin-same-id-pair:secure+secure", 10),
+        ("twin_diff_id_pairs", 20),
+        ("twin_followups_checked", 300),
+        ("twin_followups_with_live_unsecured_twin", 100),
+        ("twin_followups_while_twin_waiting", 80),
+        ("twin_followups_while_unsecured_twin_waiting", 40),
+        ("twin_openers_while_unsecured_twin_waiting", 15),
     ] {
+        // the smallest table configuration has no room for the group key ring's sessions nor for
+        // secure sessions next to two unsecured twin peers
+        if SMALL_TABLES && ["group_injections", "twin-same-id-pair:unsecured+secure", "twin-same-id-pair:secure+secure"].contains(&k) {
+            continue;
+        }
+        // with one disturbed session instead of two there are fewer unclaimed exchanges and fewer
+        // live initiator exchanges towards H
+        let min = if SMALL_TABLES && ["accept_deadline_checks", "inj-id:LiveInit"].contains(&k) { min * 6 / 10 } else { min };
         rep.floor(k, fl(min));
+    }
+    if SMALL_TABLES {
+        rep.assumptions.push("small-tables build (3 sessions x 3 exchanges per session): only disturbed session 0, the probe session and the session with H are installed (a full table), no group key ring, no filler sessions; a twins scenario installs only the probe session and all twin peers are unsecured; before a replacement probe session is installed, idle unsecured sessions, expired sessions and the surviving half of the lost probe session are removed by the harness".into());
     }
 
     let n = ctx.share(1_500, 80_000);
